@@ -79,9 +79,25 @@ func registryFunctions() []fnEntry {
 var nonWaiting = map[string]bool{"null": true, "zero": true, "neg1": true, "i64min": true, "s_empty": true, "s_abc": true, "s_a": true, "tuple": true,
 	"sq_two": true, "star": true, "g_pt": true, "negzero": true, "neghalf": true, "i32min": true, "x_empty": true, "j_obj": true}
 
+// Known finding (via=domain): REPEAT / SPACE / LPAD / RPAD have no max_allowed_packet bound, so a huge
+// count operand makes them build gigabytes (SPACE even quadratically: it never returns). Count operands
+// whose numeric value is 32767 or more are outside the generated domain; the pinned witness
+// SELECT SPACE(2147483647) is replayed alone under a 10 s watchdog.
+var amplifierPos = map[string]int{"repeat": 1, "space": 0, "lpad": 1, "rpad": 1}
+
+var bigCount = map[string]bool{"i16max": true, "u16max": true, "u16over": true, "i32max": true, "i32over": true, "u32max": true, "i64max": true, "i64over": true, "u64max": true, "u64over": true,
+	"dec65": true, "dec81": true, "dblmax": true, "dblover": true, "flt": true, "s_1e400": true, "s_inf": true, "d_num": true, "dt_num": true, "d_max": true, "dt_max": true, "d_over": true, "c_date": true, "c_datetime": true,
+	"c_time": true, "d_lit": true, "ts_epoch": true, "t_max": true, "t_over": true, "x_long": true, "x_f0288cbc": true, "x_e282": true, "uuid_bin": true, "ip6bin": true, "g_raw": true, "g_wkb": true, "x_ff": false,
+	"col_c_si": true, "col_c_i": true, "col_c_iu": true, "col_c_bi": true, "col_c_bu": true, "col_c_dec": true, "col_c_dec65": true, "col_c_f": true, "col_c_d": true, "col_c_date": true, "col_c_dt": true, "col_c_ts": true,
+	"col_c_time": true, "col_c_vb": true, "col_c_blob": true, "col_c_bin": true, "col_c_year": false, "d_1000": true, "d_0001": false, "d_feb30": true, "ts_2038": true, "d_1969": true, "d_junk": true, "c_year": false,
+	"j_bignum": true, "castchar_fffe": true, "hexnum": false, "sysvar": false, "u8_e282": true, "s_repeat64k": false}
+
 func classAllowed(fn string, pos int, c class) bool {
 	if fn == "sleep" || (fn == "get_lock" && pos == 1) {
 		return nonWaiting[c.Name]
+	}
+	if p, ok := amplifierPos[fn]; ok && p == pos {
+		return !bigCount[c.Name]
 	}
 	return true
 }
@@ -103,15 +119,18 @@ type sweepGen struct {
 	seed   int64
 	tier   string
 	npiv   int
+	star   []class // classes for the one-hostile-position sweep
+	pairs  []class // classes for the full pair product
 }
 
 func newSweepGen(seed int64, tier string) *sweepGen {
 	g := &sweepGen{seed: seed, tier: tier}
 	thorough := tier == "thorough"
-	nAll, nStar, nCore, nMini := len(allClasses), len(starClasses), len(coreClasses), len(miniClasses)
-	g.npiv = 1
+	nAll, nCore, nMini, nTiny := len(allClasses), len(coreClasses), len(miniClasses), len(tinyClasses)
+	// quick: one hostile position over the core classes, one pivot vector; thorough: over every class, two pivot vectors
+	g.star, g.npiv, g.pairs = coreClasses, 1, tinyClasses
 	if thorough {
-		g.npiv = len(pivots)
+		g.star, g.npiv, g.pairs = starClasses, 2, coreClasses
 	}
 	add := func(fn string, ar int, kind string, count int) {
 		if count <= 0 {
@@ -121,27 +140,26 @@ func newSweepGen(seed int64, tier string) *sweepGen {
 		g.total += count
 	}
 	for _, f := range registryFunctions() {
+		nary := len(f.Arities) == 5
 		for ai, ar := range f.Arities {
-			primary := ai == 0 || len(f.Arities) == 5 // declared arity, or every arity of an N-ary function
+			primary := ai == 0 || nary // declared arity, or every arity of an N-ary function
 			switch {
 			case ar == 0:
 				add(f.Name, 0, "nullary", 1)
-			case ar == 1:
+			case ar == 1 && primary:
 				add(f.Name, 1, "unary", nAll)
 			case !primary:
 				// wrong arity for a fixed-arity function: a short probe is enough (argument count check)
 				add(f.Name, ar, "random", 3)
+			case !thorough && nary && ar == 4:
+				add(f.Name, ar, "random", 12)
 			default:
-				add(f.Name, ar, "star", ar*nStar*g.npiv)
+				add(f.Name, ar, "star", ar*len(g.star)*g.npiv)
 				if ar == 2 {
-					if thorough {
-						add(f.Name, ar, "pairs", nCore*nCore)
-					} else {
-						add(f.Name, ar, "pairs", nMini*nMini)
-					}
+					add(f.Name, ar, "pairs", len(g.pairs)*len(g.pairs))
 				}
 				if ar == 3 && thorough {
-					add(f.Name, ar, "triples", nMini*nMini*nMini)
+					add(f.Name, ar, "triples", nTiny*nTiny*nTiny)
 				}
 				if thorough {
 					add(f.Name, ar, "random", 60)
@@ -149,7 +167,7 @@ func newSweepGen(seed int64, tier string) *sweepGen {
 					add(f.Name, ar, "random", 8)
 				}
 			}
-			if ar <= 2 && primary {
+			if primary && (ar <= 1 || (ar == 2 && thorough)) {
 				n := 1
 				for k := 0; k < ar; k++ {
 					n *= nMini
@@ -158,6 +176,7 @@ func newSweepGen(seed int64, tier string) *sweepGen {
 			}
 		}
 	}
+	_ = nCore
 	return g
 }
 
@@ -175,24 +194,21 @@ func (g *sweepGen) Case(i int) genCase {
 	case "unary":
 		args[0] = allClasses[j]
 	case "star":
-		n := len(starClasses)
+		n := len(g.star)
 		pos := j / (n * g.npiv)
 		rem := j % (n * g.npiv)
-		c := starClasses[rem/g.npiv]
+		c := g.star[rem/g.npiv]
 		pv := pivots[rem%g.npiv]
 		for p := range args {
 			args[p] = class{Name: "pivot", SQL: pv[p%len(pv)]}
 		}
 		args[pos] = c
 	case "pairs":
-		set := miniClasses
-		if g.tier == "thorough" {
-			set = coreClasses
-		}
+		set := g.pairs
 		args[0], args[1] = set[j/len(set)], set[j%len(set)]
 	case "triples":
-		n := len(miniClasses)
-		args[0], args[1], args[2] = miniClasses[j/(n*n)], miniClasses[(j/n)%n], miniClasses[j%n]
+		n := len(tinyClasses)
+		args[0], args[1], args[2] = tinyClasses[j/(n*n)], tinyClasses[(j/n)%n], tinyClasses[j%n]
 	case "over":
 		n := len(miniClasses)
 		jj := j
@@ -214,6 +230,9 @@ func (g *sweepGen) Case(i int) genCase {
 	parts := make([]string, len(args))
 	for p, a := range args {
 		if !classAllowed(b.fn, p, a) {
+			if _, amp := amplifierPos[b.fn]; amp {
+				return genCase{Key: b.fn, Skip: "amplifier-count-over-32767"}
+			}
 			return genCase{Key: b.fn, Skip: "by-design-waiting-operand"}
 		}
 		parts[p] = a.SQL
